@@ -23,6 +23,7 @@ fn main() {
     let file = arg("--file").expect("--file");
     let levels: Vec<u32> = arg("--opts").unwrap_or("0,1,2,3".into()).split(',').filter_map(|s| s.parse().ok()).collect();
     let budget = arg_u64("--budget", 2_000_000);
+    let dump_code = std::env::args().any(|a| a == "--code");
     let do_run = !flag("--no-run");
     let passes: Vec<String> = arg("--passes").map(|s| s.split(',').map(|x| x.to_string()).collect()).unwrap_or_default();
     let gc: (u8, u64) = (arg_u64("--gc-mode", 0) as u8, arg_u64("--gc-k", 0));
@@ -77,7 +78,16 @@ fn main() {
                 }
                 if do_run {
                     let _ = aelys_backend::verif::take_call_windows();
-                    let r = run_program(p, l, gc, budget, None);
+                    let (r, code) = run_program_script(p, l, gc, budget, None);
+                    if dump_code {
+                        for (path, arity, nregs, words) in &code {
+                            if words.len() <= 4000 {
+                                println!("CODE\t{}\t{}\t{}\t{}\t{}\t{}", i, l, path, arity, nregs, words.iter().map(|w| w.to_string()).collect::<Vec<_>>().join(" "));
+                            } else {
+                                println!("CODE\t{}\t{}\t{}\t{}\t{}\tTOO-LONG {}", i, l, path, arity, nregs, words.len());
+                            }
+                        }
+                    }
                     println!("RUN\t{}\t{}\t{}\t{}\t{}\t{}", i, l, r.class, esc(&r.output), esc(&r.value), esc(&r.detail));
                     // frame-pushing calls the compiler emitted, and those with a register in use above their window
                     let (calls, bad) = aelys_backend::verif::take_call_windows();
